@@ -1,5 +1,7 @@
 import PP.Tie.TranslatedGlue
 import PP.Tie.TranslatedAug
+import PP.Props.C19b
+import PP.Props.C19c
 /-
 The hypothesis `TrG.AcIsModel` of the glue refinement (`tie_augment_model`,
 `tie_augmentGoroutine_model`) discharged from the agreement theorem of group Aug: the environment
@@ -63,8 +65,90 @@ theorem tie_augmentGoroutine_full (c : GCache) (g : Goroutine) :
   TrG.tie_augmentGoroutine_model rf pf' (typesOf eat decl) ff (acOf eat ff decl)
     (tie_acOf_isModel eat ff decl) c g
 
+/-! ### C19's and C03's glue theorems, restated about the translated code -/
+
+theorem toOption_some {ε α : Type} {x : Except ε α} {a : α} (h : x.toOption = some a) : x = .ok a := by
+  cases x with
+  | error e => simp [Except.toOption] at h
+  | ok v => simp only [Except.toOption, Option.some.injEq] at h; rw [h]
+
+/-- **source analysis never changes the raw values** (C19), about the code as translated:
+whatever `(*Snapshot).augment` returns — for every snapshot, every file system, every parser
+answer, every declaration table — differs from the snapshot it was given in `Args.Processed`
+only: same goroutines, same frames, same raw argument values -/
+theorem tie_translated_augment_values_unchanged (s : Snapshot) (r : Snapshot × Option AugGlue.ErrKind)
+    (h : TrG.augment (TrG.modelEnv rf (fun _ => pf') (fun s => some (AugGlue.lineToByteOffsets s))
+        (acOf eat ff decl)) s = some r) :
+    r.1.goroutines.map AugGlue.eraseProcessed = s.goroutines.map AugGlue.eraseProcessed := by
+  have ht := tie_augment_full eat ff decl rf pf' s
+  rw [h] at ht
+  simp only [Option.map_some] at ht
+  exact AugGlue.augment_values_unchanged_snapshot ff _ s.goroutines r.1.goroutines r.2
+    (toOption_some ht.symm)
+
+/-- **mismatching or hostile sources never crash it** (C03/C19), about the code as translated:
+when `extractArgumentsType` never yields an empty type list with the ellipsis flag (it cannot:
+`Spec.flag_needs_type`), the translated `(*Snapshot).augment` over the translated `augmentCall`
+does not panic — no index out of range, no nil map, no nil dereference — on any snapshot, with
+any file system and any parser answer -/
+theorem tie_translated_augment_no_panic (hea : ∀ k, eat (decl k) ≠ ([], true)) (s : Snapshot) :
+    TrG.augment (TrG.modelEnv rf (fun _ => pf') (fun s => some (AugGlue.lineToByteOffsets s))
+        (acOf eat ff decl)) s ≠ none := by
+  intro hn
+  have ht := tie_augment_full eat ff decl rf pf' s
+  rw [hn] at ht
+  obtain ⟨gs', e, hok⟩ := AugGlue.augment_total_snapshot ff
+    (TrG.oracleOf rf pf' (typesOf eat decl)) (by
+      intro src p hp name line hf
+      simp only [TrG.oracleOf] at hp
+      rcases Option.eq_none_or_eq_some (pf' src) with hq | ⟨tree, hq⟩
+      · rw [hq] at hp; cases hp
+      · rw [hq] at hp
+        simp only [Option.map_some, Option.some.injEq] at hp
+        subst hp
+        simp only [FA.toParsed] at hf
+        split at hf
+        · rename_i k _
+          unfold typesOf at hf
+          split at hf
+          · cases hf
+          · simp only [Option.some.injEq] at hf; exact hea k hf
+        · cases hf) s.goroutines
+  rw [hok] at ht
+  simp [Except.toOption] at ht
+
+/-- the same with `extractArgumentsType` of the model (`PP.TN`, tied to source.go by its harness
+stream) in the place of the oracle: its answers never carry the flag without a type
+(`Spec.flag_needs_type`), so nothing is assumed any more — the source-analysis path, as
+translated, is total for every snapshot, file system, parser answer and declaration table -/
+theorem tie_translated_augment_no_panic_model (s : Snapshot) :
+    TrG.augment (TrG.modelEnv rf (fun _ => pf') (fun s => some (AugGlue.lineToByteOffsets s))
+        (acOf TN.extractArgumentsType ff decl)) s ≠ none :=
+  tie_translated_augment_no_panic TN.extractArgumentsType ff decl rf pf' (by
+    intro k hk
+    have h2 : (TN.extractArgumentsType (decl k)).2 = true := by rw [hk]
+    exact Spec.flag_needs_type (decl k) h2 (by rw [hk])) s
+
+/-! ### non-vacuity: the composed translated functions compute, and both cases occur -/
+
+/-- the file of `TrG.f10Src` with a well-formed declaration of one `int` parameter: the
+translated `augment` over the translated `augmentCall` renders the value -/
+example : (TrG.augment (TrG.modelEnv (fun _ => some TrG.f10Src) (fun _ _ => some TrG.f10Tree)
+      (fun s => some (AugGlue.lineToByteOffsets s))
+      (acOf (fun _ => ([b!"int"], false)) ⟨fun _ => [], fun _ => []⟩ (fun _ => ⟨none, []⟩))) TrG.f10Snapshot).map
+    (fun r => (TrG.processedOf r.1.goroutines, r.2)) = some ([[[b!"1"]]], none) := by decide
+
+/-- the same with the empty receiver list the file really has: the call is left alone -/
+example : (TrG.augment (TrG.modelEnv (fun _ => some TrG.f10Src) (fun _ _ => some TrG.f10Tree)
+      (fun s => some (AugGlue.lineToByteOffsets s))
+      (acOf (fun _ => ([b!"int"], false)) ⟨fun _ => [], fun _ => []⟩ (fun _ => ⟨some [], []⟩))) TrG.f10Snapshot).map
+    (fun r => (TrG.processedOf r.1.goroutines, r.2)) = some ([[[]]], none) := by decide
+
 end PP.GlueAug
 
 #print axioms PP.GlueAug.tie_acOf_isModel
 #print axioms PP.GlueAug.tie_augment_full
 #print axioms PP.GlueAug.tie_augmentGoroutine_full
+#print axioms PP.GlueAug.tie_translated_augment_values_unchanged
+#print axioms PP.GlueAug.tie_translated_augment_no_panic
+#print axioms PP.GlueAug.tie_translated_augment_no_panic_model
